@@ -108,9 +108,9 @@ type genState struct {
 func (g *genState) value(f int) int64 {
 	switch f {
 	case 0:
-		return int64(g.r.Range(-5, 40))
+		return int64(g.r.Range(-3, 8)) // narrow: ties and near-ties between containers are common
 	case 1:
-		return int64(g.r.Range(-12, 60)) // float = v/4
+		return int64(g.r.Range(-6, 12)) // float = v/4
 	case 2:
 		return int64(g.r.Intn(2))
 	default:
